@@ -85,6 +85,15 @@ pub fn rand_custom_value(rng: &mut Rng) -> Vec<u8> {
 }
 
 pub fn rand_custom_key(rng: &mut Rng) -> Vec<u8> {
+    if !mined_keys().is_empty() && rng.chance(1, 5) {
+        let k = rng.pick(mined_keys()).clone();
+        // reserved keys keep their typed generators
+        if ![&b"id"[..], b"ip", b"ip6", b"tcp", b"tcp6", b"udp", b"udp6", b"secp256k1", b"ed25519", b"client"]
+            .contains(&&k[..])
+        {
+            return k;
+        }
+    }
     match rng.below(10) {
         8 => vec![0x7a; 55],
         9 => vec![0x7a; 56],
@@ -567,6 +576,23 @@ pub fn tampers(spec: &Spec, rng: &mut Rng, all_bits: bool, out: &mut Vec<Input>)
                 kind,
             ));
         }
+        // signatures by the right key over the wrong message: the hash of the payload (ed25519 signs
+        // the list itself, ECDSA its keccak256 — one hash more or less is a classic confusion), the
+        // payload without its list header, the payload with a byte appended, an empty message
+        {
+            let payload = rlp_list(&spec.content());
+            let wrong: Vec<(&str, Vec<u8>)> = vec![
+                ("t-sig-over-hash", keccak(&payload).to_vec()),
+                ("t-sig-over-bare-content", spec.content()),
+                ("t-sig-over-padded", [payload.clone(), vec![0]].concat()),
+                ("t-sig-over-empty", vec![]),
+                ("t-sig-over-record", spec.encode_with_sig(&rlp_bytes(&[]))),
+            ];
+            for (tag, msg) in wrong {
+                let sg = spec.key.sign(&msg, false);
+                out.push(inp(tag, "reject", spec.encode_with_sig(&rlp_bytes(&sg)), kind));
+            }
+        }
         // signature of another record of the same key
         let mut s2 = spec.clone();
         s2.items.push((rlp_bytes(b"zzzz"), rlp_bytes(b"y")));
@@ -602,6 +628,25 @@ pub fn tampers(spec: &Spec, rng: &mut Rng, all_bits: bool, out: &mut Vec<Input>)
             spec.encode_with_sig(&rlp_bytes(&[sig.clone(), vec![1]].concat())),
             kind,
         ));
+        // a signature whose r starts with a zero byte, with that byte dropped (63 bytes): decoders
+        // that left-pad would take it.  The sequence number is varied until such a signature turns up.
+        {
+            let mut s2 = spec.clone();
+            for n in 0..3000u64 {
+                s2.seq_enc = rlp_uint(1_000_000 + n);
+                let g = s2.signature(n % 2 == 0);
+                if g[0] == 0 {
+                    out.push(inp("v-sig-r-leading-zero", "accept", s2.encode_with_sig(&rlp_bytes(&g)), kind));
+                    out.push(inp(
+                        "t-sig-drop-leading-zero",
+                        "reject",
+                        s2.encode_with_sig(&rlp_bytes(&g[1..])),
+                        kind,
+                    ));
+                    break;
+                }
+            }
+        }
         let mut hs = sig[..32].to_vec();
         hs.extend_from_slice(&secp_neg(&sig[32..]));
         out.push(inp("t-high-s", "reject", spec.encode_with_sig(&rlp_bytes(&hs)), kind));
@@ -776,6 +821,43 @@ pub fn gen_dec(rng: &mut Rng, thorough: bool, out: &mut String) {
             signer_kind,
         ));
     }
+    // ed25519 records under small-order public keys: ed25519-dalek's (non-strict) verification
+    // accepts R = identity, s = 0 for every message when the key is the neutral element, whatever
+    // encoding of it is used (canonical 0100..00, sign bit set on x = 0, y = p + 1); no secret is
+    // needed to "sign" them.  The back-ends must agree on them and hash the key bytes as stored.
+    {
+        let mut ident = vec![0u8; 32];
+        ident[0] = 1;
+        let mut ident_sign = ident.clone();
+        ident_sign[31] = 0x80;
+        let mut ident_noncanon = vec![0xffu8; 32];
+        ident_noncanon[0] = 0xee;
+        ident_noncanon[31] = 0x7f;
+        let mut sig = vec![0u8; 64];
+        sig[0] = 1;
+        for (tag, key) in [
+            ("o-ed-identity-key", ident.clone()),
+            ("o-ed-identity-key-signbit", ident_sign),
+            ("o-ed-identity-key-noncanonical", ident_noncanon),
+        ] {
+            for &seq in &[1u64, 300] {
+                let mut pairs = reserved_pairs(rng, 5);
+                pairs.push((b"id".to_vec(), rlp_bytes(b"v4")));
+                pairs.push((b"ed25519".to_vec(), rlp_bytes(&key)));
+                let items = sorted_items(pairs);
+                let mut content = rlp_uint(seq);
+                for (k, v) in &items {
+                    content.extend_from_slice(k);
+                    content.extend_from_slice(v);
+                }
+                let mut p = rlp_bytes(&sig);
+                p.extend_from_slice(&content);
+                // the verdict is the back-end's business ("open"); agreement between the key types
+                // and the node id are checked on whatever they decide
+                inputs.push(inp(tag, "open", rlp_list(&p), Kind::Ed));
+            }
+        }
+    }
     // presence combinations of the six address/port keys
     for mask in 0..64 {
         let kind = if mask % 2 == 0 { Kind::Secp } else { Kind::Ed };
@@ -816,7 +898,7 @@ pub fn gen_dec(rng: &mut Rng, thorough: bool, out: &mut String) {
     }
     junk(rng, &mut inputs, if thorough { 2000 } else { 300 });
     for (n, i) in inputs.iter().enumerate() {
-        emit_dec(i, &REAL_SCHEMES, n % 7 == 0, out);
+        emit_dec(i, &REAL_SCHEMES, n % 7 == 0 || i.tag.starts_with("o-ed-identity"), out);
     }
     for i in toy_inputs.iter() {
         emit_dec(i, &["toy"], false, out);
